@@ -27,32 +27,32 @@ pre_calculated_doubles_ptr[ 21] = 13749310575.00
 pre_calculated_doubles_ptr[ 22] = 81749606400.00
 pre_calculated_doubles_ptr[ 23] = 316234143225.00
 pre_calculated_doubles_ptr[ 24] = 1961990553600.00
-pre_calculated_doubles_ptr[ 25] = 7905853580625.01
-pre_calculated_doubles_ptr[ 26] = 51011754393599.96
-pre_calculated_doubles_ptr[ 27] = 213458046676875.16
-pre_calculated_doubles_ptr[ 28] = 1428329123020799.25
-pre_calculated_doubles_ptr[ 29] = 6190283353629379.00
-pre_calculated_doubles_ptr[ 30] = 42849873690623960.00
-pre_calculated_doubles_ptr[ 31] = 191898783962510816.00
-pre_calculated_doubles_ptr[ 32] = 1371195958099966720.00
-pre_calculated_doubles_ptr[ 33] = 6332659870762856448.00
-pre_calculated_doubles_ptr[ 34] = 46620662575398879232.00
-pre_calculated_doubles_ptr[ 35] = 221643095476699824128.00
+pre_calculated_doubles_ptr[ 25] = 7905853580625.00
+pre_calculated_doubles_ptr[ 26] = 51011754393600.00
+pre_calculated_doubles_ptr[ 27] = 213458046676875.00
+pre_calculated_doubles_ptr[ 28] = 1428329123020800.00
+pre_calculated_doubles_ptr[ 29] = 6190283353629375.00
+pre_calculated_doubles_ptr[ 30] = 42849873690624000.00
+pre_calculated_doubles_ptr[ 31] = 191898783962510625.00
+pre_calculated_doubles_ptr[ 32] = 1371195958099968000.00
+pre_calculated_doubles_ptr[ 33] = 6332659870762850625.00
+pre_calculated_doubles_ptr[ 34] = 46620662575398912000.00
+pre_calculated_doubles_ptr[ 35] = 221643095476699771875.00
 pre_calculated_doubles_ptr[ 36] = 1678343852714360832000.00
-pre_calculated_doubles_ptr[ 37] = 8200794532637892935680.00
-pre_calculated_doubles_ptr[ 38] = 63777066403145720004608.00
+pre_calculated_doubles_ptr[ 37] = 8200794532637891559375.00
+pre_calculated_doubles_ptr[ 38] = 63777066403145711616000.00
 pre_calculated_doubles_ptr[ 39] = 319830986772877752139776.00
 pre_calculated_doubles_ptr[ 40] = 2551082656125828464640000.00
-pre_calculated_doubles_ptr[ 41] = 13113070457687983475654656.00
-pre_calculated_doubles_ptr[ 42] = 107145471557284812694749184.00
-pre_calculated_doubles_ptr[ 43] = 563862029680583787669356544.00
-pre_calculated_doubles_ptr[ 44] = 4714400748520528253875650560.00
-pre_calculated_doubles_ptr[ 45] = 25373791335626273400058544128.00
-pre_calculated_doubles_ptr[ 46] = 216862434431944368947512475648.00
+pre_calculated_doubles_ptr[ 41] = 13113070457687988603440625.00
+pre_calculated_doubles_ptr[ 42] = 107145471557284795514880000.00
+pre_calculated_doubles_ptr[ 43] = 563862029680583509947946875.00
+pre_calculated_doubles_ptr[ 44] = 4714400748520531002654720000.00
+pre_calculated_doubles_ptr[ 45] = 25373791335626257947657609375.00
+pre_calculated_doubles_ptr[ 46] = 216862434431944426122117120000.00
 pre_calculated_doubles_ptr[ 47] = 1192568192774434172503588864000.00
-pre_calculated_doubles_ptr[ 48] = 10409396852733329709480598831104.00
-pre_calculated_doubles_ptr[ 49] = 58435841445947288807899666579456.00
-pre_calculated_doubles_ptr[ 50] = 520469842636666553028024352112640.00
+pre_calculated_doubles_ptr[ 48] = 10409396852733332453861621760000.00
+pre_calculated_doubles_ptr[ 49] = 58435841445947272053455474390625.00
+pre_calculated_doubles_ptr[ 50] = 520469842636666622693081088000000.00
 
 
 cdef double cf_double_factorial(unsigned char n) noexcept nogil:
